@@ -13,6 +13,14 @@ an abstract interpreter over the AST, nothing is executed) on symbolic inputs; t
 (rules/c07_norm.py: collections as unions of generators over atomic sources, conditions compared by exhaustive evaluation) and
 compared with the normal form of a specification written as plain python below and evaluated by the same interpreter.  Private
 helper names, local names, loop / comprehension / generator / closure / early-return spellings do not occur in the comparison.
+Normal forms that differ as text are interpreted over small finite models (rules/c07_model.py): equal on all of them = a spelling
+the normaliser does not unify (silent); different on one = VIOLATION with that model as counterexample; not interpretable (an
+opaque part) = undecided, unless an input is provably lost (the result does not depend on it at all).
+
+Outcomes: VIOLATION needs a counterexample model, a lost input, or a `raise` inside the loop over the rules; code the evaluator
+cannot model (while / with / recursion / unknown containers ...) makes the affected comparison undecided, never violated.
+`engine/rules/c07_variants.py` is a developer corpus of ~40 re-spellings (must stay silent) and breaking changes in the same
+idioms (must fire); run it after touching the evaluator.
 """
 
 from __future__ import annotations
@@ -445,7 +453,7 @@ def run(repo: Repo) -> Result:
         "assert_applies equals apply(convert(prefix(parse(path), base module))) for both naming options and the default mode."
     )
     res.not_decided = "equivalence with pairwise conformance on all graphs (relies on C01 for each generated rule); order of the generated rules and of the names inside one rule."
-    res.trusted_base = ["C01 (meaning of the generated module rules)", "rules/c07_sym.py (symbolic evaluator)", "rules/c07_norm.py (normal form)"]
+    res.trusted_base = ["C01 (meaning of the generated module rules)", "rules/c07_sym.py (symbolic evaluator)", "rules/c07_norm.py (normal form)", "rules/c07_model.py (finite-model comparison of normal forms that differ as text)"]
     A = Anchors(repo)
     for rule, check, f in (("C07.R1", check_convert, A.convert), ("C07.R2", check_applier, A.mra_apply), ("C07.R3", check_prefix, A.prefix), ("C07.R3", check_pipeline, A.dr_apply)):
         try:
